@@ -286,6 +286,11 @@ def run(spec):
                         if t.remaining_work_amount_record_list[i] != prev:
                             res.add("inserted", "C18.inserted_step_has_progress", "%s: remaining work of %s at inserted step %d is %r, previous entry %r"
                                     % (what, t.ID, i, t.remaining_work_amount_record_list[i], prev), i)
+                        pass
+                    for c_ in ix.comps:
+                        if int(c_.state_record_list[i]) == D.WORKING:
+                            res.add("inserted", "C18.inserted_step_component_WORKING", "%s: component %s is logged WORKING at inserted step %d" % (what, c_.ID, i), i)
+                    for t in ix.tasks:
                         if int(t.state_record_list[i]) == D.WORKING:
                             res.add("inserted", "C18.inserted_step_task_WORKING", "%s: task %s is logged WORKING at inserted step %d" % (what, t.ID, i), i)
             if dumpb is not None and coin.random() < 0.5:
